@@ -53,6 +53,12 @@ func (e *C08Script) Run(ctx *core.Ctx, idx int) {
 	canary := scen == "canary-paused-before-pods" || scen == "canary-paused-after-pods" || scen == "canary-auto-paused"
 	if canary {
 		ed.Spec.Strategy.Canary = &v1.ExtendedDaemonSetSpecStrategyCanary{Replicas: kit.IS(1 + r.Intn(2)), ValidationMode: v1.ExtendedDaemonSetSpecStrategyCanaryValidationModeManual}
+		if scen != "canary-auto-paused" && r.Intn(3) == 0 {
+			// auto validation with a canary duration of zero (legal): time alone never ends such a canary, and
+			// certainly not a paused one; the script ends it by explicit validation like the manual ones
+			ed.Spec.Strategy.Canary.ValidationMode = v1.ExtendedDaemonSetSpecStrategyCanaryValidationModeAuto
+			ed.Spec.Strategy.Canary.Duration = &metav1.Duration{Duration: 0}
+		}
 	}
 	w.CreateEDS(ed)
 	w.Coop = true
